@@ -2,7 +2,16 @@
 
 package build
 
-import "go/ast"
+import (
+	"fmt"
+	"go/ast"
+	"go/build"
+	"go/token"
+	"io"
+	"path"
+	"sort"
+	"strings"
+)
 
 // VerifAugment exposes the overlay merge of parseAndAugment for already parsed
 // files: it applies exactly the same sequence of steps (augmentOverlayFile on
@@ -29,4 +38,51 @@ func VerifAugment(importPath string, overlayFiles, originalFiles []*ast.File) []
 	}
 
 	return append(overlayFiles, originalFiles...)
+}
+
+// verifXCtx is the minimal XContext parseAndAugment needs: it only asks for Env().
+type verifXCtx struct{ env Env }
+
+func (x verifXCtx) Import(string, string, build.ImportMode) (*PackageData, error) {
+	return nil, fmt.Errorf("verifXCtx: Import is not available")
+}
+func (x verifXCtx) Env() Env                         { return x.env }
+func (x verifXCtx) Match([]string) ([]string, error) { return nil, fmt.Errorf("verifXCtx: Match is not available") }
+
+// VerifParseAndAugment runs the real parseAndAugment for a package whose
+// original sources are given in memory (file name -> source); the overlay
+// sources are whatever natives.FS serves for importPath at the time of the
+// call (see natives.VerifSetFS). It returns the merged files in the order
+// parseAndAugment returns them, and the names of the .inc.js files found.
+//
+// Verification hook: compiled only with the "verif" build tag.
+func VerifParseAndAugment(importPath string, original map[string]string, isTest bool, fileSet *token.FileSet) ([]*ast.File, []string, error) {
+	dir := "/verif-original/" + importPath
+	var names []string
+	for n := range original {
+		names = append(names, n)
+	}
+	sort.Strings(names)
+	bctx := &build.Context{
+		GOOS: "js", GOARCH: "ecmascript", Compiler: "gc",
+		JoinPath: path.Join,
+		OpenFile: func(p string) (io.ReadCloser, error) {
+			src, ok := original[strings.TrimPrefix(p, dir+"/")]
+			if !ok {
+				return nil, fmt.Errorf("verif: no such original file %s", p)
+			}
+			return io.NopCloser(strings.NewReader(src)), nil
+		},
+	}
+	pkg := &PackageData{
+		Package: &build.Package{ImportPath: importPath, Dir: dir, GoFiles: names},
+		bctx:    bctx,
+	}
+	xctx := verifXCtx{env: Env{GOROOT: "/verif-goroot", GOOS: "js", GOARCH: "ecmascript"}}
+	files, jsFiles, err := parseAndAugment(xctx, pkg, isTest, fileSet)
+	var js []string
+	for _, f := range jsFiles {
+		js = append(js, f.Path)
+	}
+	return files, js, err
 }
